@@ -27,17 +27,7 @@ def run(ctx, rep):
                    "POVM d^1/2 * state[0] on the implied last block; process coefficient 0 of the outer product with coordinates d^2..", floor=5)
     # ---- M1
     sq = ix.cls(T + "standard_qtomography.StandardQTomography")
-    forms = {}
-    for nm, fld in (("calc_matA", "_coeffs_1st"), ("calc_vecB", "_coeffs_0th")):
-        m = sq.methods[nm]
-        d = single_defs(m)
-        r = returns(m)
-        e = inline(m, r[0].value) if r else None
-        txt = unparse(e) if e is not None else ""
-        want_core = "np.vstack([k[1] for k in sorted(self.%s.items())])" % fld
-        ok = txt in (want_core, want_core + ".flatten()")
-        forms[nm] = txt.replace(fld, "F")
-        rep.check(ok, "M1", m, r[0] if r else nm, "values stacked in sorted key order", "%s is %s, expected %s" % (nm, txt, want_core), node=r[0] if r else m.node)
+    check_model_accessors(ctx, rep, "M1")
     cp = sq.methods["calc_prob_dists"]
     _check_prob_dists(ctx, rep, cp)
     # ---- M2
@@ -133,6 +123,58 @@ def run(ctx, rep):
                 rep.violation("M3", f, con, "reads the %s from position %s, which %s's schedules pin to '%s'" % (role, pos, short, shape[p]), node=n)
     # ---- M4 / M5
     _m45(ctx, rep)
+
+
+def check_model_accessors(ctx, rep, rule: str):
+    """calc_matA / calc_vecB: the values of the coefficient dictionaries stacked in sorted key order, built afresh on every call."""
+    from .. import symsum
+    from ..astutil import deep_inline
+    sq = ctx.ix.cls(T + "standard_qtomography.StandardQTomography")
+    for nm, fld in (("calc_matA", "_coeffs_1st"), ("calc_vecB", "_coeffs_0th")):
+        m = sq.methods[nm]
+        cs = symsum.cases(m)
+        rc = symsum.returning(cs) if cs else []
+        con = "%s: stacked dictionary values" % nm
+        if len(rc) != 1 or rc[0].guards:
+            # more than one path: e.g. a cached copy handed out on later calls
+            cached = [c for c in rc if isinstance(c.value, ast.Attribute) and unparse(c.value.value) == m.self_name]
+            if cached or any(isinstance(n, ast.Assign) and isinstance(n.targets[0], ast.Attribute) and unparse(n.targets[0].value) == m.self_name
+                             for n in own_nodes(m.node)):
+                rep.violation(rule, m, con, "%s stores / hands out a cached array (%s): every caller that updates its result in place now changes the "
+                              "model of all later calls; the accessor must build the array from self.%s on every call"
+                              % (nm, ", ".join(sorted({unparse(c.value) for c in cached})) or "self.<field>", fld), node=m.node)
+            else:
+                rep.undecided(rule, m, con, "expected one unconditional return")
+            continue
+        e = rc[0].value
+        # peel flatten / reshape(-1)
+        while isinstance(e, ast.Call) and isinstance(e.func, ast.Attribute) and e.func.attr in ("flatten", "ravel", "reshape", "astype", "copy"):
+            e = e.func.value
+        ok = False
+        why = "%s is %s, expected np.vstack of the values of sorted(self.%s.items())" % (nm, unparse(rc[0].value), fld)
+        if isinstance(e, ast.Attribute) and unparse(e.value) == m.self_name:
+            rep.violation(rule, m, con, "%s hands out the stored array self.%s itself" % (nm, e.attr), node=m.node)
+            continue
+        if isinstance(e, ast.Call) and (dotted(e.func) or "").split(".")[-1] in ("vstack", "array", "concatenate", "stack") and e.args:
+            comp = e.args[0]
+            if isinstance(comp, (ast.ListComp, ast.GeneratorExp)) and len(comp.generators) == 1 and not comp.generators[0].ifs:
+                g = comp.generators[0]
+                it_ok = unparse(g.iter).replace(" ", "") == "sorted(self.%s.items())" % fld
+                if isinstance(g.target, ast.Name):
+                    el_ok = isinstance(comp.elt, ast.Subscript) and unparse(comp.elt.value) == g.target.id and is_num(comp.elt.slice, 1)
+                elif isinstance(g.target, ast.Tuple) and len(g.target.elts) == 2 and isinstance(g.target.elts[1], ast.Name):
+                    el_ok = unparse(comp.elt) == g.target.elts[1].id
+                else:
+                    el_ok = False
+                if el_ok and not it_ok:
+                    rep.violation(rule, m, con, "the values are enumerated over `%s`; rows and offsets line up only in sorted (schedule, outcome) key order"
+                                  % unparse(g.iter), node=m.node)
+                    continue
+                ok = it_ok and el_ok
+        if ok:
+            rep.holds(rule, m, con, "values stacked in sorted key order, built on every call", node=m.node)
+        else:
+            rep.undecided(rule, m, con, why)
 
 
 def _check_prob_dists(ctx, rep, cp: Func):
